@@ -402,9 +402,6 @@ Qed.
 
 (* ------------------------------------------------------------------ parameter lists *)
 
-Definition ser_param (p : option string * cty) : list tok :=
-  serialize (snd p) (param_stack (fst p)).
-
 Lemma reads_ok_param : forall td p rest f,
   reads_ok (snd p) -> simple_param p = true ->
   wf_oname td (fst p) && wf_ty td (snd p) = true -> follow_ok rest = true ->
@@ -518,7 +515,7 @@ Lemma ret_decomp : forall td r cs0, ptr_base r = true ->
   exists ws c cs', ptrs cs0 r = ptrs cs' (CBase ws c) /\ wf_ty td r = wf_words td ws /\
     serialize r (map ptr_item cs0) = const_toks c ++ map lex_word ws ++ pop_all (map ptr_item cs').
 Proof.
-  intros td r. induction r as [ws c|c r IH|r n IH|c r IH args IHa] using cty_ind';
+  intros td r. induction r as [ws c|c r IH|r n IH|c r args IH IHa] using cty_ind';
     intros cs0 Hpb; try discriminate Hpb.
   - exists ws, c, cs0. repeat split. apply ser_base.
   - cbn [ptr_base] in Hpb. destruct (IH (c :: cs0) Hpb) as [ws [c' [cs' [H1 [H2 H3]]]]].
@@ -613,9 +610,1186 @@ Qed.
 
 Lemma reads_ok_all : forall t, reads_ok t.
 Proof.
-  intros t. induction t as [ws c|c t IH|t n IH|c r IH args IHa] using cty_ind'.
+  intros t. induction t as [ws c|c t IH|t n IH|c r args IH IHa] using cty_ind'.
   - apply reads_ok_base.
   - now apply reads_ok_ptr.
   - now apply reads_ok_arr.
   - now apply reads_ok_fun.
 Qed.
+
+(* ------------------------------------------------------------------ round trip *)
+
+Theorem decl_roundtrip_partial_td : forall td t n,
+  simple t = true -> wf_names_td td t n ->
+  denote_td td (serialize t [SName n]) = Some (n, t).
+Proof.
+  intros td t n Hs [Hn Hwf].
+  destruct (reads_ok_all t td [] (Some n) [] [] (2 * length (serialize t [SName n]) + 2))
+    as [b [r [d [H1 [H2 H3]]]]]; try assumption; try reflexivity.
+  - cbn [stack map app param_stack rev brks flat_map]. now rewrite app_nil_r.
+  - cbn [stack map app param_stack rev brks flat_map arrays ptrs] in *.
+    rewrite app_nil_r in H1.
+    unfold denote_td. rewrite H1, H2, H3. reflexivity.
+Qed.
+
+Theorem decl_roundtrip_partial : forall t n,
+  simple t = true -> wf_names t n -> denote (serialize t [SName n]) = Some (n, t).
+Proof. intros t n. apply decl_roundtrip_partial_td. Qed.
+
+Theorem decl_roundtrip_refuted :
+  (exists t n, wf_names t n /\ denote (serialize t [SName n]) <> Some (n, t)) /\
+  (* pointer to array of 3 int comes out as `int * p [3]`: an array of three pointers *)
+  (wf_names (CPtr false (CArr (CBase ["int"] false) 3)) "p" /\
+   denote (serialize (CPtr false (CArr (CBase ["int"] false) 3)) [SName "p"]) =
+   Some ("p", CArr (CPtr false (CBase ["int"] false)) 3)) /\
+  (* pointer to function(int) returning pointer to function(char) returning int comes
+     out as `int ( * ) (char) ( * f) (int)`: not a declaration *)
+  (wf_names (CPtr false (CFun false (CPtr false (CFun false (CBase ["int"] false)
+                                                      [(None, CBase ["char"] false)]))
+                              [(None, CBase ["int"] false)])) "f" /\
+   denote (serialize (CPtr false (CFun false (CPtr false (CFun false (CBase ["int"] false)
+                                                      [(None, CBase ["char"] false)]))
+                              [(None, CBase ["int"] false)])) [SName "f"]) = None) /\
+  (* int m[2][3] is written `int m [3] [2]` *)
+  (wf_names (CArr (CArr (CBase ["int"] false) 3) 2) "m" /\
+   denote (serialize (CArr (CArr (CBase ["int"] false) 3) 2) [SName "m"]) =
+   Some ("m", CArr (CArr (CBase ["int"] false) 2) 3)) /\
+  (* array of 3 pointers to function comes out as `int ( * a) (int) [3]`: a pointer to a
+     function returning an array *)
+  (wf_names (CArr (CPtr false (CFun false (CBase ["int"] false) [(None, CBase ["int"] false)])) 3) "a" /\
+   denote (serialize (CArr (CPtr false (CFun false (CBase ["int"] false)
+                                             [(None, CBase ["int"] false)])) 3) [SName "a"]) =
+   Some ("a", CPtr false (CFun false (CArr (CBase ["int"] false) 3) [(None, CBase ["int"] false)]))).
+Proof.
+  split; [|repeat split; vm_compute; reflexivity].
+  exists (CPtr false (CArr (CBase ["int"] false) 3)), "p".
+  split; [split; vm_compute; reflexivity|].
+  vm_compute. discriminate.
+Qed.
+
+(* ------------------------------------------------------------------ a generic "every token satisfies q" lemma *)
+
+Lemma forallb_sep_join : forall (q : tok -> bool) sep l,
+  forallb q sep = true -> Forall (fun x => forallb q x = true) l ->
+  forallb q (sep_join sep l) = true.
+Proof.
+  intros q sep l Hsep Hall. induction Hall as [|x l Hx Hall IH]; [reflexivity|].
+  destruct l as [|y l']; [exact Hx|].
+  change (sep_join sep (x :: y :: l')) with (x ++ sep ++ sep_join sep (y :: l')).
+  rewrite !forallb_app, Hx, Hsep, IH. reflexivity.
+Qed.
+
+Section SerForall.
+  Variable q : tok -> bool.
+  Hypothesis Hpunct : forall t, is_punct t = true -> q t = true.
+  Hypothesis Hvoid : q (TId "void") = true.
+
+  Lemma serialize_forallb : forall t st,
+    forallb q (map lex_word (cty_words t)) = true -> forallb q (pop_all st) = true ->
+    forallb q (serialize t st) = true.
+  Proof.
+    intros t. induction t as [ws c|c t IH|t n IH|c r args IH IHa] using cty_ind';
+      intros st Hw Hst.
+    - rewrite ser_base, !forallb_app. cbn [cty_words] in Hw. rewrite Hw, Hst.
+      destruct c; cbn [const_toks forallb]; [rewrite Hpunct by reflexivity|]; reflexivity.
+    - rewrite ser_ptr. apply IH; [exact Hw|].
+      rewrite pop_all_cons, forallb_app, Hst.
+      destruct c; cbn [ptr_item emit_item forallb]; rewrite !Hpunct by reflexivity; reflexivity.
+    - rewrite ser_arr, forallb_app. rewrite (IH st Hw Hst).
+      cbn [forallb]. rewrite !Hpunct by reflexivity. reflexivity.
+    - cbn [cty_words] in Hw. rewrite map_app, forallb_app in Hw.
+      apply andb_true_iff in Hw. destruct Hw as [Hwr Hwa].
+      rewrite ser_fun, !forallb_app. rewrite (IH [] Hwr eq_refl).
+      assert (Hst' : forallb q (pop_all (if c then SConst :: st else st)) = true).
+      { destruct c; [|exact Hst]. rewrite pop_all_cons, forallb_app, Hst.
+        cbn [emit_item forallb]. now rewrite Hpunct by reflexivity. }
+      rewrite Hst'. cbn [forallb]. rewrite !Hpunct by reflexivity.
+      cbn [andb].
+      destruct args as [|a args].
+      + cbn [params_toks forallb]. rewrite lex_void, Hvoid, !Hpunct by reflexivity. reflexivity.
+      + remember (a :: args) as l eqn:Hl.
+        assert (Hpt : params_toks l = [TLPar] ++ sep_join [TComma] (map ser_param l) ++ [TRPar])
+          by (subst l; reflexivity).
+        rewrite Hpt, !forallb_app. cbn [forallb]. rewrite !Hpunct by reflexivity.
+        rewrite forallb_sep_join; [reflexivity|cbn [forallb]; now rewrite Hpunct by reflexivity|].
+        clear Hpt Hl a args. induction IHa as [|p l Hp IHa IHl]; [constructor|].
+        cbn [flat_map] in Hwa. rewrite !map_app, !forallb_app in Hwa.
+        apply andb_true_iff in Hwa. destruct Hwa as [Hwp Hwl].
+        apply andb_true_iff in Hwp. destruct Hwp as [Hwn Hwt].
+        cbn [map]. constructor; [|exact (IHl Hwl)].
+        unfold ser_param. apply Hp; [exact Hwt|].
+        destruct (fst p) as [n|]; [|reflexivity].
+        cbn [param_stack pop_all flat_map emit_item app]. exact Hwn.
+  Qed.
+End SerForall.
+
+Lemma lex_word_not_lbrace : forall s, not_lbrace (lex_word s) = true.
+Proof.
+  intros s. unfold lex_word.
+  destruct (String.eqb s "const"); [reflexivity|].
+  destruct (String.eqb s "return"); reflexivity.
+Qed.
+
+Lemma words_not_lbrace : forall ws, forallb not_lbrace (map lex_word ws) = true.
+Proof.
+  induction ws as [|w ws IH]; [reflexivity|].
+  cbn [map forallb]. now rewrite lex_word_not_lbrace, IH.
+Qed.
+
+Lemma punct_not_lbrace : forall t, is_punct t = true -> not_lbrace t = true.
+Proof. intros t H. destruct t; try discriminate H; reflexivity. Qed.
+
+Lemma punct_not_return : forall t, is_punct t = true -> not_return t = true.
+Proof. intros t H. destruct t; try discriminate H; reflexivity. Qed.
+
+Lemma serialize_no_lbrace : forall t st,
+  forallb not_lbrace (pop_all st) = true -> forallb not_lbrace (serialize t st) = true.
+Proof.
+  intros t st H. apply serialize_forallb; try assumption.
+  - exact punct_not_lbrace.
+  - reflexivity.
+  - apply words_not_lbrace.
+Qed.
+
+Lemma after_lbrace_app : forall A B, forallb not_lbrace A = true ->
+  after_lbrace (A ++ TLBrace :: B) = B.
+Proof.
+  induction A as [|x A IH]; intros B H; [reflexivity|].
+  cbn [forallb] in H. apply andb_true_iff in H. destruct H as [Hx HA].
+  cbn [app after_lbrace]. destruct x; try (apply IH; exact HA). discriminate Hx.
+Qed.
+
+Lemma before_lbrace_app : forall A B, forallb not_lbrace A = true ->
+  before_lbrace (A ++ TLBrace :: B) = A.
+Proof.
+  induction A as [|x A IH]; intros B H; [reflexivity|].
+  cbn [forallb] in H. apply andb_true_iff in H. destruct H as [Hx HA].
+  cbn [app before_lbrace]. destruct x; try (rewrite (IH B HA); reflexivity). discriminate Hx.
+Qed.
+
+Lemma wrapper_split : forall name suf ret args,
+  wrapper name suf ret args =
+  wrapper_head name suf ret args ++ TLBrace :: wrapper_body name ret args.
+Proof.
+  intros name suf ret args. unfold wrapper, wrapper_head, wrapper_body.
+  rewrite <- !app_assoc. reflexivity.
+Qed.
+
+Lemma serialize_args_no_lbrace : forall a, forallb not_lbrace (serialize_args a) = true.
+Proof.
+  intros a. destruct a as [|p a]; [reflexivity|].
+  unfold serialize_args. apply forallb_sep_join; [reflexivity|].
+  apply Forall_forall. intros x Hx. apply in_map_iff in Hx. destruct Hx as [y [Hy _]].
+  subst x. apply serialize_no_lbrace. cbn [pop_all flat_map emit_item app forallb].
+  now rewrite lex_word_not_lbrace.
+Qed.
+
+Lemma wrapper_head_no_lbrace : forall name suf ret args,
+  forallb not_lbrace (wrapper_head name suf ret args) = true.
+Proof.
+  intros name suf ret args. unfold wrapper_head. rewrite !forallb_app.
+  rewrite serialize_no_lbrace by reflexivity.
+  rewrite serialize_args_no_lbrace. cbn [forallb]. now rewrite lex_word_not_lbrace.
+Qed.
+
+(* ------------------------------------------------------------------ the call forwards the parameters *)
+
+Lemma idents_sep : forall (a : list (string * cty)) tl,
+  idents_until_rpar (sep_join [TComma] (map (fun p => [TId (fst p)]) a) ++ TRPar :: tl) =
+  map fst a.
+Proof.
+  induction a as [|p a IH]; intros tl; [reflexivity|].
+  destruct a as [|q a].
+  - reflexivity.
+  - change (sep_join [TComma] (map (fun p => [TId (fst p)]) (p :: q :: a)))
+      with ([TId (fst p)] ++ [TComma] ++ sep_join [TComma] (map (fun p => [TId (fst p)]) (q :: a))).
+    rewrite <- !app_assoc. cbn [app idents_until_rpar map]. f_equal. apply IH.
+Qed.
+
+Lemma plain_lex : forall s, plain_word s = true -> lex_word s = TId s.
+Proof.
+  intros s H. unfold plain_word in H. apply andb_true_iff in H. destruct H as [H1 H2].
+  apply negb_true_iff in H1. apply negb_true_iff in H2. now apply lex_word_plain.
+Qed.
+
+Lemma call_toks_plain : forall a : list (string * cty),
+  forallb plain_word (map fst a) = true ->
+  map (fun p => [lex_word (fst p)]) a = map (fun p => [TId (fst p)]) a.
+Proof.
+  induction a as [|p a IH]; intros H; [reflexivity|].
+  cbn [map forallb] in H. apply andb_true_iff in H. destruct H as [Hp Ha].
+  cbn [map]. now rewrite (plain_lex _ Hp), (IH Ha).
+Qed.
+
+Lemma call_head_not_lpar : forall (a : list (string * cty)) tl,
+  exists x Y, sep_join [TComma] (map (fun p => [TId (fst p)]) a) ++ TRPar :: tl = x :: Y /\
+              x <> TLPar.
+Proof.
+  intros a tl. destruct a as [|p a].
+  - exists TRPar, tl. split; [reflexivity|discriminate].
+  - destruct a as [|q a].
+    + exists (TId (fst p)), (TRPar :: tl). split; [reflexivity|discriminate].
+    + eexists (TId (fst p)), _. split; [reflexivity|discriminate].
+Qed.
+
+Theorem args_forwarded_in_order : forall name suf ret args,
+  forallb plain_word (param_names args) = true ->
+  call_args (wrapper name suf ret args) = param_names args.
+Proof.
+  intros name suf ret args Hplain. unfold call_args, param_names in *.
+  rewrite wrapper_split, after_lbrace_app by apply wrapper_head_no_lbrace.
+  unfold wrapper_body. rewrite (call_toks_plain _ Hplain).
+  destruct (is_void ret); cbn [app].
+  - destruct (call_head_not_lpar (name_args 0 args) [TSemi; TRBrace]) as [x [Y [HY Hx]]].
+    pose proof (idents_sep (name_args 0 args) [TSemi; TRBrace]) as Hid.
+    rewrite HY in *.
+    destruct (lex_word name); try exact Hid.
+    destruct x; try exact Hid. now elim Hx.
+  - destruct (lex_word name); apply idents_sep.
+Qed.
+
+(* ------------------------------------------------------------------ return *)
+
+Theorem wrapper_return_first : forall name suf ret args,
+  String.eqb name "return" = false ->
+  body_returns (wrapper name suf ret args) = negb (is_void ret).
+Proof.
+  intros name suf ret args Hn. unfold body_returns.
+  rewrite wrapper_split, after_lbrace_app by apply wrapper_head_no_lbrace.
+  unfold wrapper_body. destruct (is_void ret); cbn [app negb]; [|reflexivity].
+  unfold lex_word. rewrite Hn. destruct (String.eqb name "const"); reflexivity.
+Qed.
+
+Lemma lex_word_not_return : forall s,
+  negb (String.eqb s "return") = true -> not_return (lex_word s) = true.
+Proof.
+  intros s H. apply negb_true_iff in H. unfold lex_word. rewrite H.
+  destruct (String.eqb s "const"); reflexivity.
+Qed.
+
+Lemma words_not_return : forall ws,
+  forallb (fun s => negb (String.eqb s "return")) ws = true ->
+  forallb not_return (map lex_word ws) = true.
+Proof.
+  induction ws as [|w ws IH]; intros H; [reflexivity|].
+  cbn [forallb] in H. apply andb_true_iff in H. destruct H as [Hw Hws].
+  cbn [map forallb]. now rewrite (lex_word_not_return w Hw), (IH Hws).
+Qed.
+
+Lemma serialize_no_return : forall t st,
+  forallb (fun s => negb (String.eqb s "return")) (cty_words t) = true ->
+  forallb not_return (pop_all st) = true -> forallb not_return (serialize t st) = true.
+Proof.
+  intros t st Hw Hst. apply serialize_forallb; try assumption.
+  - exact punct_not_return.
+  - reflexivity.
+  - now apply words_not_return.
+Qed.
+
+Lemma args_no_return : forall a : list (string * cty),
+  forallb (fun s => negb (String.eqb s "return"))
+          (flat_map (fun p => fst p :: cty_words (snd p)) a) = true ->
+  forallb not_return (serialize_args a) = true /\
+  forallb not_return (sep_join [TComma] (map (fun p => [lex_word (fst p)]) a)) = true.
+Proof.
+  intros a Hargs.
+  assert (H : Forall (fun x => forallb not_return x = true)
+                     (map (fun p => serialize (snd p) [SName (fst p)]) a) /\
+              Forall (fun x => forallb not_return x = true)
+                     (map (fun p : string * cty => [lex_word (fst p)]) a)).
+  { induction a as [|x l IHl]; [split; constructor|].
+    cbn [flat_map forallb] in Hargs. rewrite forallb_app in Hargs.
+    apply andb_true_iff in Hargs. destruct Hargs as [Hx Hl].
+    apply andb_true_iff in Hx. destruct Hx as [Hxn Hxt].
+    destruct (IHl Hl) as [I1 I2].
+    cbn [map]. split; constructor; try assumption.
+    - apply serialize_no_return; [exact Hxt|].
+      cbn [pop_all flat_map emit_item app forallb]. now rewrite (lex_word_not_return _ Hxn).
+    - cbn [forallb]. now rewrite (lex_word_not_return _ Hxn). }
+  destruct H as [H1 H2]. split.
+  - destruct a as [|p a]; [reflexivity|].
+    unfold serialize_args. apply forallb_sep_join; [reflexivity|exact H1].
+  - apply forallb_sep_join; [reflexivity|exact H2].
+Qed.
+
+Theorem wrapper_returns_iff_nonvoid : forall name suf ret args,
+  no_return_words name suf ret args = true ->
+  (In TReturn (wrapper name suf ret args) <-> is_void ret = false).
+Proof.
+  intros name suf ret args Hnr. rewrite wrapper_split. unfold wrapper_body.
+  split.
+  - intros Hin. destruct (is_void ret) eqn:Hv; [exfalso|reflexivity].
+    unfold no_return_words in Hnr. cbn [forallb] in Hnr.
+    apply andb_true_iff in Hnr. destruct Hnr as [Hname Hnr].
+    apply andb_true_iff in Hnr. destruct Hnr as [Hns Hnr].
+    rewrite forallb_app in Hnr. apply andb_true_iff in Hnr. destruct Hnr as [Hret Hargs].
+    destruct (args_no_return _ Hargs) as [Hsa Hca].
+    assert (Hall : forallb not_return
+                     (wrapper_head name suf ret args ++ TLBrace :: [] ++ [lex_word name; TLPar] ++
+                      sep_join [TComma] (map (fun p => [lex_word (fst p)]) (name_args 0 args)) ++
+                      [TRPar; TSemi; TRBrace]) = true).
+    { unfold wrapper_head. cbn [app]. rewrite !forallb_app. cbn [forallb].
+      rewrite !forallb_app. cbn [forallb].
+      rewrite (serialize_no_return ret [] Hret eq_refl).
+      rewrite (lex_word_not_return _ Hns), (lex_word_not_return _ Hname).
+      rewrite Hsa, Hca. reflexivity. }
+    rewrite forallb_forall in Hall. specialize (Hall TReturn Hin). discriminate Hall.
+  - intros Hv. rewrite Hv. apply in_or_app. right. right. left. reflexivity.
+Qed.
+
+(* ------------------------------------------------------------------ the wrapper declares name ++ suffix *)
+
+Lemma named_args_props : forall td (a : list (string * cty)),
+  forallb (fun p => ident_ok td (fst p) && simple (snd p) && wf_ty td (snd p)) a = true ->
+  forallb simple_param (map (fun p => (Some (fst p), snd p)) a) = true /\
+  forallb (fun p => wf_oname td (fst p) && wf_ty td (snd p))
+          (map (fun p => (Some (fst p), snd p)) a) = true /\
+  sole_void (map (fun p => (Some (fst p), snd p)) a) = false /\
+  [TLPar] ++ serialize_args a ++ [TRPar] = params_toks (map (fun p => (Some (fst p), snd p)) a).
+Proof.
+  intros td a H. repeat split.
+  - induction a as [|p a IH]; [reflexivity|].
+    cbn [forallb] in H. apply andb_true_iff in H. destruct H as [Hp Ha].
+    apply andb_true_iff in Hp. destruct Hp as [Hp _].
+    apply andb_true_iff in Hp. destruct Hp as [_ Hs].
+    cbn [map forallb]. rewrite (IH Ha). unfold simple_param. cbn [fst snd is_some].
+    unfold simple in Hs. now rewrite Hs.
+  - induction a as [|p a IH]; [reflexivity|].
+    cbn [forallb] in H. apply andb_true_iff in H. destruct H as [Hp Ha].
+    apply andb_true_iff in Hp. destruct Hp as [Hp Hw].
+    apply andb_true_iff in Hp. destruct Hp as [Hi _].
+    cbn [map forallb fst snd wf_oname]. now rewrite (IH Ha), Hi, Hw.
+  - destruct a as [|[n t] [|q a]]; reflexivity.
+  - destruct a as [|p a]; [reflexivity|].
+    unfold params_toks, serialize_args. cbn [map]. cbn [fst snd param_stack].
+    rewrite map_map. reflexivity.
+Qed.
+
+Theorem wrapper_name_is_suffixed_td : forall td name suf ret args,
+  wf_wrapper td name suf ret args ->
+  denote_td td (before_lbrace (wrapper name suf ret args)) =
+  Some (String.append name suf, CFun false ret (named_args args)).
+Proof.
+  intros td name suf ret args [Hns [Hpb [Hwr Hargs]]].
+  rewrite wrapper_split, before_lbrace_app by apply wrapper_head_no_lbrace.
+  unfold wrapper_head, named_args.
+  destruct (ret_decomp td ret [] Hpb) as [ws [cr [cs' [Hr [Hww Hser]]]]].
+  cbn [ptrs map] in Hr, Hser. rewrite Hww in Hwr.
+  rewrite (lex_word_ident td _ Hns).
+  destruct (named_args_props td _ Hargs) as [Hs [Hw [Hsv Hpt]]].
+  set (ns := String.append name suf) in *.
+  set (a' := map (fun p => (Some (fst p), snd p)) (name_args 0 args)) in *.
+  change ([TId ns; TLPar] ++ serialize_args (name_args 0 args) ++ [TRPar])
+    with (TId ns :: ([TLPar] ++ serialize_args (name_args 0 args) ++ [TRPar])).
+  rewrite Hpt, Hser, <- !app_assoc.
+  assert (Hall : Forall (fun p => reads_ok (snd p)) a')
+    by (apply Forall_forall; intros p _; apply reads_ok_all).
+  unfold denote_td.
+  rewrite p_spec_words; [|exact Hwr|].
+  2:{ destruct cs' as [|[] cs']; try reflexivity.
+      cbn [map pop_all flat_map app nokw_head].
+      destruct (ident_ok_inv td ns Hns) as [Hres _].
+      destruct (reserved_false ns Hres) as [Hk _]. now rewrite Hk. }
+  match goal with |- context [p_dtor td ?F _] => set (F0 := F) end.
+  assert (HF : length cs' + 2 * length (params_toks a') + 3 <= F0).
+  { unfold F0. rewrite ?app_length. cbn [length]. rewrite ?app_length. cbn [length].
+    pose proof (stars_len cs'). lia. }
+  clearbody F0.
+  fuel_split F0 (length cs'). rewrite p_dtor_stars by reflexivity.
+  set (g := F0 - length cs' - 2).
+  replace (F0 - length cs') with (S (S g)) by (unfold g; lia).
+  rewrite (p_dtor_name td (S g) ns _ Hns).
+  replace (params_toks a') with (params_toks a' ++ []) by apply app_nil_r.
+  destruct (params_ok td a' [] g Hall Hs Hw Hsv ltac:(unfold g; lia)) as [Z [HZ HpZ]].
+  rewrite HZ. cbn [p_suffix]. rewrite HpZ.
+  replace g with (S (g - 1)) by (unfold g; lia).
+  rewrite p_suffix_end by reflexivity.
+  rewrite apply_ptrwrap. cbn [apply_dtor]. now rewrite <- Hr.
+Qed.
+
+Theorem wrapper_name_is_suffixed : forall name suf ret args,
+  wf_wrapper [] name suf ret args ->
+  denote (before_lbrace (wrapper name suf ret args)) =
+  Some (String.append name suf, CFun false ret (named_args args)).
+Proof. intros name suf ret args. apply wrapper_name_is_suffixed_td. Qed.
+
+(* ------------------------------------------------------------------ examples *)
+
+Open Scope N_scope.
+
+
+
+Example decl_roundtrip_partial_nonvacuous :
+  simple ex_cb = true /\ wf_names ex_cb "cb" /\
+  serialize ex_cb [SName "cb"] =
+    [TConst; TId "unsigned"; TId "long"; TStar; TLPar; TStar; TConst; TId "cb"; TRPar;
+     TLPar; TId "struct"; TId "S"; TStar; TId "s"; TComma;
+            TId "void"; TLPar; TStar; TRPar; TLPar; TId "void"; TRPar; TComma;
+            TId "char"; TLBrk; TNum 4; TRBrk; TComma;
+            TId "int"; TId "m"; TLBrk; TNum 3; TRBrk; TLBrk; TNum 3; TRBrk; TRPar] /\
+  denote (serialize ex_cb [SName "cb"]) = Some ("cb", ex_cb).
+Proof. repeat split; vm_compute; reflexivity. Qed.
+
+(* typedef names are read with the typedef environment *)
+Example decl_roundtrip_typedef_nonvacuous :
+  let t := CArr (CPtr false (CBase ["size_t"] true)) 4 in
+  simple t = true /\ wf_names_td ["size_t"] t "v" /\
+  denote_td ["size_t"] (serialize t [SName "v"]) = Some ("v", t) /\
+  denote (serialize t [SName "v"]) = None.
+Proof. repeat split; vm_compute; reflexivity. Qed.
+
+(* every conjunct of [simple] is needed: a wf type violating only that conjunct, and
+   what the reader makes of the output *)
+Example simple_conjuncts_needed :
+  (* array under a pointer *)
+  denote (serialize (CPtr false (CArr ex_int 3)) [SName "p"]) = Some ("p", CArr (CPtr false ex_int) 3) /\
+  (* array lengths not a palindrome *)
+  denote (serialize (CArr (CArr ex_int 3) 2) [SName "m"]) = Some ("m", CArr (CArr ex_int 2) 3) /\
+  (* const-qualified function type: "const " is pushed and comes out before the star *)
+  serialize (CPtr false (CFun true ex_int [(None, ex_int)])) [SName "fp"] =
+    [TId "int"; TLPar; TConst; TStar; TId "fp"; TRPar; TLPar; TId "int"; TRPar] /\
+  denote (serialize (CPtr false (CFun true ex_int [(None, ex_int)])) [SName "fp"]) = None /\
+  (* unnamed parameter of bare function type: "int () (void)" *)
+  denote (serialize (CFun false ex_int [(None, CFun false ex_int [])]) [SName "f"]) = None /\
+  (* array of pointers to function *)
+  denote (serialize (CArr (CPtr false (CFun false ex_int [(None, ex_int)])) 3) [SName "a"]) =
+    Some ("a", CPtr false (CFun false (CArr ex_int 3) [(None, ex_int)])) /\
+  (* function returning pointer to function (smallest: no parameters anywhere) *)
+  serialize (CFun false (CPtr false (CFun false ex_int [])) []) [SName "f"] =
+    [TId "int"; TLPar; TStar; TRPar; TLPar; TId "void"; TRPar;
+     TLPar; TId "f"; TRPar; TLPar; TId "void"; TRPar] /\
+  denote (serialize (CFun false (CPtr false (CFun false ex_int [])) []) [SName "f"]) = None /\
+  (* function returning array: not C, but it shows the return type must be pointers over a base *)
+  denote (serialize (CFun false (CArr ex_int 3) []) [SName "f"]) = None /\
+  (* a parameter outside the class *)
+  denote (serialize (CFun false ex_int [(Some "p", CPtr false (CArr ex_int 3))]) [SName "f"]) =
+    Some ("f", CFun false ex_int [(Some "p", CArr (CPtr false ex_int) 3)]).
+Proof. repeat split; vm_compute; reflexivity. Qed.
+
+(* every conjunct of the side conditions is needed *)
+Example wf_conjuncts_needed :
+  (* declared name is a specifier keyword / const / a typedef name / a tag keyword *)
+  simple ex_int = true /\
+  denote (serialize ex_int [SName "long"]) = None /\
+  denote (serialize ex_int [SName "const"]) = None /\
+  denote_td ["T"] (serialize ex_int [SName "T"]) = None /\
+  denote (serialize ex_int [SName "struct"]) = None /\
+  (* base words that are not a specifier list *)
+  denote (serialize (CBase ["foo"] false) [SName "x"]) = None /\
+  denote (serialize (CBase [] false) [SName "x"]) = None /\
+  denote (serialize (CBase ["struct"; "int"] false) [SName "x"]) = None /\
+  (* a typedef name spelled `const` *)
+  denote_td ["const"] (serialize (CBase ["const"] false) [SName "x"]) = None /\
+  (* parameter name that is a keyword *)
+  denote (serialize (CFun false ex_int [(Some "int", ex_char)]) [SName "f"]) =
+    Some ("f", CFun false ex_int [(None, CBase ["char"; "int"] false)]) /\
+  (* the sole unnamed void parameter *)
+  simple (CFun false ex_int [(None, ex_void)]) = true /\
+  denote (serialize (CFun false ex_int [(None, ex_void)]) [SName "f"]) =
+    Some ("f", CFun false ex_int []).
+Proof. repeat split; vm_compute; reflexivity. Qed.
+
+
+Example wrapper_nonvacuous :
+  wrapper "foo" "__extern" ex_int ex_args =
+    [TId "int"; TId "foo__extern"; TLPar; TId "int"; TId "a"; TComma; TId "char"; TId "arg_0";
+     TComma; TId "void"; TStar; TId "b"; TComma; TId "int"; TId "arg_1"; TRPar; TLBrace;
+     TReturn; TId "foo"; TLPar; TId "a"; TComma; TId "arg_0"; TComma; TId "b"; TComma;
+     TId "arg_1"; TRPar; TSemi; TRBrace] /\
+  param_names ex_args = ["a"; "arg_0"; "b"; "arg_1"] /\
+  forallb plain_word (param_names ex_args) = true /\
+  call_args (wrapper "foo" "__extern" ex_int ex_args) = ["a"; "arg_0"; "b"; "arg_1"] /\
+  wf_wrapper [] "foo" "__extern" ex_int ex_args /\
+  no_return_words "foo" "__extern" ex_int ex_args = true /\
+  denote (before_lbrace (wrapper "foo" "__extern" ex_int ex_args)) =
+    Some ("foo__extern",
+          CFun false ex_int [(Some "a", ex_int); (Some "arg_0", ex_char);
+                             (Some "b", CPtr false ex_void); (Some "arg_1", ex_int)]) /\
+  wrapper "g" "_w" (CBase ["void"] true) [] =
+    [TConst; TId "void"; TId "g_w"; TLPar; TId "void"; TRPar; TLBrace;
+     TId "g"; TLPar; TRPar; TSemi; TRBrace].
+Proof. repeat split; vm_compute; reflexivity. Qed.
+
+(* the side conditions of the wrapper theorems are needed *)
+Example wrapper_conditions_needed :
+  (* a parameter called `return` is not forwarded as an identifier *)
+  call_args (wrapper "f" "_w" ex_int [(Some "return", ex_int); (Some "x", ex_int)]) = [] /\
+  (* a void function called `return`: the body starts with the keyword *)
+  body_returns (wrapper "return" "_w" ex_void []) = true /\
+  In TReturn (wrapper "return" "_w" ex_void []) /\
+  (* a typedef of void is not void for Type::is_void: the wrapper says `return` *)
+  body_returns (wrapper "f" "_w" (CBase ["V"] false) []) = true /\
+  (* return type outside pointers-over-base: the text before "{" is not a declaration *)
+  wrapper_head "g" "_w" (CPtr false (CFun false ex_int [(None, ex_char)])) [(None, ex_int)] =
+    [TId "int"; TLPar; TStar; TRPar; TLPar; TId "char"; TRPar; TId "g_w"; TLPar;
+     TId "int"; TId "arg_0"; TRPar] /\
+  denote (before_lbrace (wrapper "g" "_w" (CPtr false (CFun false ex_int [(None, ex_char)]))
+                                 [(None, ex_int)])) = None /\
+  (* a named parameter can collide with a generated name *)
+  param_names [(Some "arg_0", ex_int); (None, ex_char)] = ["arg_0"; "arg_0"].
+Proof. repeat split; try (vm_compute; reflexivity). vm_compute. tauto. Qed.
+
+(* ================================================================== *)
+(* What the output denotes for EVERY type, and exactness of [simple]   *)
+(* ================================================================== *)
+
+Close Scope N_scope.
+
+Lemma p_plist_unfold : forall td f ts,
+  p_plist td (S f) ts =
+  match p_decl td f ts with
+  | None => None
+  | Some (p, r') =>
+      match r' with
+      | TRPar :: r'' => Some ([p], r'')
+      | TComma :: r'' =>
+          match p_plist td f r'' with
+          | Some (ps, r3) => Some (p :: ps, r3)
+          | None => None
+          end
+      | _ => None
+      end
+  end.
+Proof.
+  intros td f ts. cbn [p_plist]. unfold p_decl.
+  destruct (p_spec td ts) as [[b r]|]; [|reflexivity].
+  destruct (p_dtor td f r) as [[d r']|]; reflexivity.
+Qed.
+
+Lemma reads_p_decl : forall td f ts on T rest,
+  reads td f ts on T rest -> p_decl td f ts = Some ((on, T), rest).
+Proof.
+  intros td f ts on T rest [b [r [d [H1 [H2 H3]]]]].
+  unfold p_decl. now rewrite H1, H2, H3.
+Qed.
+
+Lemma pop_all_cst : forall c cs on,
+  pop_all (cst c (stack cs on)) = const_toks c ++ pop_all (map ptr_item cs) ++ name_toks on.
+Proof.
+  intros c cs on. destruct c; cbn [cst const_toks app].
+  - rewrite pop_all_cons, pop_all_stack. reflexivity.
+  - apply pop_all_stack.
+Qed.
+
+Lemma p_spec_reject : forall td c0 H, bad_spec_head td H = true ->
+  p_spec td (const_toks c0 ++ H) = None.
+Proof.
+  intros td c0 H Hb. rewrite p_spec_const.
+  - destruct H as [|x H']; [reflexivity|]. destruct x; try reflexivity.
+    cbn [bad_spec_head] in Hb.
+    apply andb_true_iff in Hb. destruct Hb as [Hb H3].
+    apply andb_true_iff in Hb. destruct Hb as [H1 H2].
+    apply negb_true_iff in H1. apply negb_true_iff in H2. apply negb_true_iff in H3.
+    now rewrite H1, H2, H3.
+  - destruct H as [|x H']; [reflexivity|]. destruct x; try reflexivity. discriminate Hb.
+Qed.
+
+Lemma p_plist_none : forall td g X, p_spec td X = None -> p_plist td g X = None.
+Proof. intros td g X H. destruct g as [|g]; [reflexivity|]. cbn [p_plist]. now rewrite H. Qed.
+
+Lemma ident_bad_head : forall td n Y, ident_ok td n = true -> bad_spec_head td (TId n :: Y) = true.
+Proof.
+  intros td n Y H. destruct (ident_ok_inv td n H) as [Hr Hm].
+  destruct (reserved_false n Hr) as [Hk [Ht _]]. cbn [bad_spec_head]. now rewrite Hk, Ht, Hm.
+Qed.
+
+(* the group "( [const] * ... * name )" is never a parameter list *)
+Lemma params_reject_group : forall td f c cs on Y,
+  wf_oname td on = true ->
+  p_params td f (pop_all (cst c (stack cs on)) ++ TRPar :: Y) = None.
+Proof.
+  intros td f c cs on Y Hon. rewrite pop_all_cst, <- !app_assoc.
+  set (H := pop_all (map ptr_item cs) ++ name_toks on ++ TRPar :: Y).
+  assert (Hbad : bad_spec_head td H = true).
+  { unfold H. destruct cs as [|[] cs]; try reflexivity.
+    destruct on as [n|]; [|reflexivity].
+    cbn [map pop_all flat_map name_toks app]. cbn [wf_oname] in Hon.
+    rewrite (lex_word_ident td n Hon). now apply ident_bad_head. }
+  destruct f as [|f1]; [reflexivity|].
+  destruct c; cbn [const_toks app].
+  - cbn [p_params]. apply p_plist_none. exact (p_spec_reject td true H Hbad).
+  - pose proof (p_plist_none td f1 H (p_spec_reject td false H Hbad)) as Hpl.
+    cbn [const_toks app] in Hpl.
+    destruct H as [|x H1] eqn:EH; [exact Hpl|].
+    destruct x; try exact Hpl.
+    destruct H1 as [|y H2]; [exact Hpl|].
+    destruct y; try exact Hpl.
+    cbn [p_params]. destruct (String.eqb s "void") eqn:E; [|exact Hpl].
+    apply String.eqb_eq in E. subst s. discriminate Hbad.
+Qed.
+
+Lemma p_suffix_brks_then_group : forall td L g d c cs on Y,
+  wf_oname td on = true -> length L + 1 <= g ->
+  p_suffix td g d (brks L ++ TLPar :: pop_all (cst c (stack cs on)) ++ TRPar :: Y) = None.
+Proof.
+  intros td L g d c cs on Y Hon Hg.
+  fuel_split g (length L). rewrite p_suffix_brks.
+  remember (g - length L) as g1 eqn:E. fuel_S g1 g2.
+  cbn [p_suffix]. now rewrite params_reject_group.
+Qed.
+
+(* ------------------------------------------------------------------ printed_as: simple facts *)
+
+Lemma ptrs_not_base : forall cs t ws c,
+  (forall ws' c', t <> CBase ws' c') -> ptrs cs t <> CBase ws c.
+Proof.
+  induction cs as [|c0 cs IH]; intros t ws c Ht; [apply Ht|].
+  cbn [ptrs]. apply IH. intros ws' c' Hx. discriminate Hx.
+Qed.
+
+Lemma printed_as_base_inv : forall t nm cs ds ws c,
+  printed_as nm cs ds t = Some (CBase ws c) -> cs = [] /\ ds = [] /\ t = CBase ws c.
+Proof.
+  intros t. induction t as [ws0 c0|c0 t IH|t n IH|c0 r args IH IHa] using cty_ind';
+    intros nm cs ds ws c H; cbn [printed_as] in H.
+  - injection H as H1.
+    destruct (rev ds) as [|d L] eqn:Ed; [|discriminate H1].
+    cbn [arrays] in H1.
+    destruct cs as [|c1 cs].
+    + cbn [ptrs] in H1. split; [reflexivity|]. split; [|exact H1].
+      apply (f_equal (@rev N)) in Ed. now rewrite rev_involutive in Ed.
+    + exfalso. cbn [ptrs] in H1. revert H1. apply ptrs_not_base. intros ws' c' Hx; discriminate Hx.
+  - destruct (IH nm (c0 :: cs) ds ws c H) as [E _]. discriminate E.
+  - destruct (IH nm cs (ds ++ [n]) ws c H) as [_ [E _]]. now destruct ds.
+  - exfalso.
+    destruct (c0 || (is_nil cs && negb nm) || negb (ptr_base r)); [discriminate H|].
+    destruct (map_opt _ args) as [args'|]; [|discriminate H].
+    injection H as H1. revert H1. apply ptrs_not_base. intros ws' c' Hx; discriminate Hx.
+Qed.
+
+Lemma map_opt_cons : forall A B (f : A -> option B) x l,
+  map_opt f (x :: l) =
+  match f x, map_opt f l with Some y, Some ys => Some (y :: ys) | _, _ => None end.
+Proof. reflexivity. Qed.
+
+Lemma printed_as_fun : forall nm cs ds c r args,
+  printed_as nm cs ds (CFun c r args) =
+  if c || (is_nil cs && negb nm) || negb (ptr_base r) then None
+  else match map_opt rd_param args with
+       | Some args' => Some (ptrs cs (CFun false (arrays (rev ds) r) args'))
+       | None => None
+       end.
+Proof. reflexivity. Qed.
+
+(* ------------------------------------------------------------------ parameter lists, in general *)
+
+Lemma plist_char : forall td args,
+  Forall (fun p => reads_char (snd p)) args -> args <> [] ->
+  forallb (fun p => wf_oname td (fst p) && wf_ty td (snd p)) args = true ->
+  forall rest f,
+  2 * length (sep_join [TComma] (map ser_param args) ++ TRPar :: rest) + 3 <= f ->
+  p_plist td f (sep_join [TComma] (map ser_param args) ++ TRPar :: rest) =
+  match map_opt rd_param args with Some args' => Some (args', rest) | None => None end.
+Proof.
+  intros td args Hall. induction Hall as [|p args Hp Hall IH]; intros Hne Hwf rest f Hf.
+  - now elim Hne.
+  - cbn [forallb] in Hwf. apply andb_true_iff in Hwf. destruct Hwf as [Hwp Hwa].
+    apply andb_true_iff in Hwp. destruct Hwp as [Hon Hty].
+    fuel_S f f'. rewrite p_plist_unfold. rewrite map_opt_cons.
+    destruct p as [on t]. cbn [fst snd] in *.
+    unfold rd_param at 1. cbn [fst snd].
+    destruct args as [|q args].
+    + cbn [map sep_join] in *. unfold ser_param in *. cbn [fst snd] in *.
+      pose proof (Hp td [] on [] (TRPar :: rest) f' Hty Hon eq_refl) as H.
+      cbn [rev brks flat_map app stack map] in H. rewrite H by lia.
+      destruct (printed_as (is_some on) [] [] t) as [T|]; reflexivity.
+    + assert (Hsj : sep_join [TComma] (map ser_param ((on, t) :: q :: args)) =
+                    ser_param (on, t) ++ [TComma] ++ sep_join [TComma] (map ser_param (q :: args)))
+        by reflexivity.
+      rewrite Hsj in *. clear Hsj.
+      rewrite <- !app_assoc in *. cbn [app] in *.
+      unfold ser_param at 1. unfold ser_param at 1 in Hf. cbn [fst snd] in *.
+      pose proof (Hp td [] on [] (TComma :: sep_join [TComma] (map ser_param (q :: args)) ++ TRPar :: rest)
+                     f' Hty Hon eq_refl) as H.
+      change (stack [] on) with (param_stack on) in H.
+      cbn [rev brks flat_map app] in H. rewrite H by lia. clear H.
+      rewrite app_length in Hf. cbn [length] in Hf.
+      destruct (printed_as (is_some on) [] [] t) as [T|]; [|reflexivity].
+      rewrite (IH ltac:(discriminate) Hwa rest f') by lia.
+      destruct (map_opt rd_param (q :: args)); reflexivity.
+Qed.
+
+Lemma plist_void_rpar_eq : forall td f Z,
+  p_plist td (S (S (S f))) (TId "void" :: TRPar :: Z) = Some ([(None, CBase ["void"] false)], Z).
+Proof.
+  intros td f Z. cbn [p_plist]. rewrite p_spec_void_rpar.
+  rewrite p_dtor_abs by reflexivity. rewrite p_suffix_end by reflexivity. reflexivity.
+Qed.
+
+Lemma map_opt_sole_void : forall args,
+  map_opt rd_param args = Some [(None, CBase ["void"] false)] -> sole_void args = true.
+Proof.
+  intros args H. destruct args as [|[on t] [|q args]].
+  - discriminate H.
+  - rewrite map_opt_cons in H. unfold rd_param in H. cbn [fst snd] in H.
+    destruct (printed_as (is_some on) [] [] t) as [T|] eqn:E; [|discriminate H].
+    cbn [map_opt] in H. inversion H as [[H1 H2]]. subst on T.
+    destruct (printed_as_base_inv _ _ _ _ _ _ E) as [_ [_ Ht]]. subst t. reflexivity.
+  - rewrite map_opt_cons in H. destruct (rd_param (on, t)); [|discriminate H].
+    rewrite map_opt_cons in H. destruct (rd_param q); [|discriminate H].
+    destruct (map_opt rd_param args); discriminate H.
+Qed.
+
+Lemma params_char : forall td args rest f,
+  Forall (fun p => reads_char (snd p)) args ->
+  forallb (fun p => wf_oname td (fst p) && wf_ty td (snd p)) args = true ->
+  sole_void args = false ->
+  2 * length (params_toks args ++ rest) + 2 <= f ->
+  exists Z, params_toks args ++ rest = TLPar :: Z /\
+    p_params td f Z =
+    match map_opt rd_param args with Some args' => Some (args', rest) | None => None end.
+Proof.
+  intros td args rest f Hall Hwf Hsv Hf.
+  destruct args as [|a args].
+  - exists (TId "void" :: TRPar :: rest). split; [reflexivity|].
+    cbn [params_toks length app] in Hf. fuel_S f f'. reflexivity.
+  - remember (a :: args) as l eqn:Hl.
+    assert (Hne : l <> []) by (subst l; discriminate).
+    exists (sep_join [TComma] (map ser_param l) ++ TRPar :: rest). split.
+    + subst l. unfold params_toks. fold ser_param. rewrite <- !app_assoc. reflexivity.
+    + assert (Hpt : params_toks l ++ rest =
+                    TLPar :: sep_join [TComma] (map ser_param l) ++ TRPar :: rest).
+      { subst l. unfold params_toks. fold ser_param. rewrite <- !app_assoc. reflexivity. }
+      rewrite Hpt in Hf. cbn [length] in Hf.
+      fuel_S f f'.
+      pose proof (plist_char td l Hall Hne Hwf rest f' ltac:(lia)) as Hpl.
+      remember (sep_join [TComma] (map ser_param l) ++ TRPar :: rest) as Z eqn:HZ.
+      destruct Z as [|x Z1]; [exact Hpl|].
+      destruct x; try exact Hpl.
+      destruct Z1 as [|y Z2]; [exact Hpl|].
+      destruct y; try exact Hpl.
+      cbn [p_params]. destruct (String.eqb s "void") eqn:E; [|exact Hpl].
+      apply String.eqb_eq in E. subst s. exfalso.
+      cbn [length] in Hf.
+      destruct f' as [|[|[|f3]]]; try lia.
+      rewrite plist_void_rpar_eq in Hpl.
+      destruct (map_opt rd_param l) as [args'|] eqn:Em; [|discriminate Hpl].
+      inversion Hpl as [[H1 H2]]. subst args'.
+      rewrite (map_opt_sole_void l Em) in Hsv. discriminate Hsv.
+Qed.
+
+(*  D (params) W  *)
+Lemma suffix_params : forall td args W g d,
+  Forall (fun p => reads_char (snd p)) args ->
+  forallb (fun p => wf_oname td (fst p) && wf_ty td (snd p)) args = true ->
+  sole_void args = false ->
+  2 * length (params_toks args ++ W) + 3 <= g ->
+  p_suffix td g d (params_toks args ++ W) =
+  match map_opt rd_param args with
+  | Some args' => p_suffix td (g - 1) (DFun d args') W
+  | None => None
+  end.
+Proof.
+  intros td args W g d Hall Hwf Hsv Hg.
+  fuel_S g g1.
+  destruct (params_char td args W g1 Hall Hwf Hsv ltac:(lia)) as [Z [HZ HpZ]].
+  rewrite HZ. cbn [p_suffix]. rewrite HpZ.
+  replace (S g1 - 1) with g1 by lia.
+  destruct (map_opt rd_param args); reflexivity.
+Qed.
+
+(* ------------------------------------------------------------------ the head of a function declarator *)
+
+Lemma starts_group_not : forall td c cs on Y,
+  c || (is_nil cs && negb (is_some on)) = true ->
+  starts_group td (pop_all (cst c (stack cs on)) ++ TRPar :: Y) = false.
+Proof.
+  intros td c cs on Y H. rewrite pop_all_cst. destruct c; [reflexivity|].
+  cbn [orb] in H. destruct cs as [|c0 cs]; [|discriminate H].
+  destruct on as [n|]; [discriminate H|]. reflexivity.
+Qed.
+
+Lemma cst_len : forall c cs on, length cs <= length (pop_all (cst c (stack cs on))).
+Proof.
+  intros c cs on. rewrite pop_all_cst, !app_length. pose proof (stars_len cs). lia.
+Qed.
+
+(*  R ( [const] * ... * name ) W   where R is pointers over a base type *)
+Lemma fun_head : forall td r c cs on W f,
+  ptr_base r = true -> wf_ty td r = true -> wf_oname td on = true ->
+  2 * length (serialize r [] ++ TLPar :: pop_all (cst c (stack cs on)) ++ TRPar :: W) + 2 <= f ->
+  exists g, 2 * length W + 4 <= g /\
+  p_decl td f (serialize r [] ++ TLPar :: pop_all (cst c (stack cs on)) ++ TRPar :: W) =
+  if c || (is_nil cs && negb (is_some on)) then None
+  else match p_suffix td g (ptrwrap cs (DName on)) W with
+       | Some (d, r') => Some (apply_dtor d r, r')
+       | None => None
+       end.
+Proof.
+  intros td r c cs on W f Hpb Hwr Hon Hf.
+  destruct (ret_decomp td r [] Hpb) as [ws [cr [cs' [Hr [Hww Hser]]]]].
+  cbn [ptrs map] in Hr, Hser. rewrite Hww in Hwr. rewrite Hser in *.
+  rewrite <- !app_assoc in *.
+  rewrite !app_length in Hf. cbn [length] in Hf. rewrite app_length in Hf. cbn [length] in Hf.
+  pose proof (stars_len cs') as Hl1. pose proof (cst_len c cs on) as Hl2.
+  exists (f - length cs' - 1). split; [lia|].
+  unfold p_decl. rewrite p_spec_words; [|exact Hwr|destruct cs' as [|[] cs']; reflexivity].
+  fuel_split f (length cs'). rewrite p_dtor_stars by reflexivity.
+  remember (f - length cs' - 1) as g eqn:Hg.
+  replace (length cs' + (f - length cs') - length cs' - 1) with g by lia.
+  replace (f - length cs') with (S g) by lia.
+  destruct (c || (is_nil cs && negb (is_some on))) eqn:Hbad.
+  - cbn [p_dtor]. rewrite (starts_group_not td c cs on W Hbad).
+    fuel_S g g1. cbn [p_suffix]. now rewrite params_reject_group.
+  - apply orb_false_iff in Hbad. destruct Hbad as [Hc Hne]. subst c. cbn [cst] in *.
+    rewrite dtor_group; try assumption; try lia.
+    + destruct (p_suffix td g (ptrwrap cs (DName on)) W) as [[d r']|]; [|reflexivity].
+      rewrite apply_ptrwrap. now rewrite <- Hr.
+    + destruct cs as [|c0 cs]; [|reflexivity]. destruct on as [n|]; [reflexivity|discriminate Hne].
+Qed.
+
+(* ------------------------------------------------------------------ the characterisation *)
+
+Lemma base_reads : forall td ws c cs on L rest f,
+  wf_words td ws = true -> wf_oname td on = true -> follow_ok rest = true ->
+  length cs + length L + 2 <= f ->
+  reads td f (serialize (CBase ws c) (stack cs on) ++ brks L ++ rest)
+        on (arrays L (ptrs cs (CBase ws c))) rest.
+Proof.
+  intros td ws c cs on L rest f Hwf Hon Hrest Hf.
+  rewrite ser_base. rewrite <- !app_assoc.
+  exists (CBase ws c), (pop_all (stack cs on) ++ brks L ++ rest),
+         (ptrwrap cs (arrwrap L (DName on))).
+  split; [|split].
+  - apply p_spec_words; [exact Hwf|].
+    rewrite pop_all_stack, <- app_assoc.
+    destruct cs as [|[] cs]; try reflexivity.
+    destruct on as [n|]; cbn [map pop_all flat_map name_toks app].
+    + cbn [wf_oname] in Hon. rewrite (lex_word_ident td n Hon). cbn [nokw_head].
+      destruct (ident_ok_inv td n Hon) as [Hr _].
+      destruct (reserved_false n Hr) as [Hk _]. now rewrite Hk.
+    + destruct L as [|n L]; [now apply follow_nokw|reflexivity].
+  - now apply dtor_stars_name_brks.
+  - rewrite apply_ptrwrap, apply_arrwrap. reflexivity.
+Qed.
+
+Lemma char_base : forall ws c, reads_char (CBase ws c).
+Proof.
+  intros ws c td cs on ds rest f Hwf Hon Hrest Hf. cbn [wf_ty] in Hwf.
+  rewrite (reads_p_decl _ _ _ _ _ _ (base_reads td ws c cs on (rev ds) rest f Hwf Hon Hrest
+             ltac:(rewrite ser_base, !app_length, pop_all_stack, !app_length, brks_len in Hf;
+                   pose proof (stars_len cs); lia))).
+  reflexivity.
+Qed.
+
+Lemma rej_base : forall ws c, ret_rejected (CBase ws c).
+Proof.
+  intros ws c td cs1 ds1 c0 cs on Y f Hwf Hon Hbad Hf. cbn [wf_ty] in Hwf.
+  destruct Hbad as [Hbad|Hbad]; [discriminate Hbad|].
+  destruct (rev ds1) as [|d L] eqn:Ed.
+  { exfalso. apply Hbad. apply (f_equal (@rev N)) in Ed. now rewrite rev_involutive in Ed. }
+  rewrite ser_base in *. rewrite <- !app_assoc in *.
+  rewrite pop_all_stack in *. cbn [name_toks] in *. rewrite app_nil_r in *.
+  rewrite !app_length in Hf. rewrite brks_len in Hf. cbn [length] in Hf.
+  pose proof (stars_len cs1) as Hl.
+  unfold p_decl. rewrite p_spec_words; [|exact Hwf|destruct cs1 as [|[] cs1]; reflexivity].
+  fuel_split f (length cs1). rewrite p_dtor_stars by reflexivity.
+  remember (f - length cs1) as g eqn:Hg. fuel_S g g1.
+  rewrite p_dtor_abs by reflexivity.
+  rewrite p_suffix_brks_then_group; [reflexivity|exact Hon|cbn [length]; lia].
+Qed.
+
+Lemma char_ptr : forall c t, reads_char t -> reads_char (CPtr c t).
+Proof.
+  intros c t IH td cs on ds rest f Hwf Hon Hrest Hf.
+  rewrite ser_ptr, stack_cons in *. cbn [printed_as].
+  apply (IH td (c :: cs) on ds rest f); assumption.
+Qed.
+
+Lemma rej_ptr : forall c t, ret_rejected t -> ret_rejected (CPtr c t).
+Proof.
+  intros c t IH td cs1 ds1 c0 cs on Y f Hwf Hon Hbad Hf.
+  rewrite ser_ptr, stack_cons in *.
+  apply (IH td (c :: cs1) ds1 c0 cs on Y f); assumption.
+Qed.
+
+Lemma arr_toks : forall t n st ds X,
+  serialize (CArr t n) st ++ brks (rev ds) ++ X = serialize t st ++ brks (rev (ds ++ [n])) ++ X.
+Proof.
+  intros t n st ds X. rewrite ser_arr, rev_app_distr. cbn [rev app]. rewrite brks_cons.
+  rewrite <- app_assoc. reflexivity.
+Qed.
+
+Lemma char_arr : forall t n, reads_char t -> reads_char (CArr t n).
+Proof.
+  intros t n IH td cs on ds rest f Hwf Hon Hrest Hf.
+  rewrite arr_toks in *. cbn [printed_as].
+  apply (IH td cs on (ds ++ [n]) rest f); assumption.
+Qed.
+
+Lemma rej_arr : forall t n, ret_rejected t -> ret_rejected (CArr t n).
+Proof.
+  intros t n IH td cs1 ds1 c0 cs on Y f Hwf Hon Hbad Hf.
+  rewrite arr_toks in *.
+  apply (IH td cs1 (ds1 ++ [n]) c0 cs on Y f); try assumption.
+  right. now destruct ds1.
+Qed.
+
+Lemma fun_toks : forall c r args st X,
+  serialize (CFun c r args) st ++ X =
+  serialize r [] ++ TLPar :: pop_all (cst c st) ++ TRPar :: params_toks args ++ X.
+Proof.
+  intros c r args st X. rewrite ser_fun. unfold cst. rewrite <- !app_assoc. reflexivity.
+Qed.
+
+Lemma wf_fun_inv : forall td c r args, wf_ty td (CFun c r args) = true ->
+  wf_ty td r = true /\ sole_void args = false /\
+  forallb (fun p => wf_oname td (fst p) && wf_ty td (snd p)) args = true.
+Proof.
+  intros td c r args H. cbn [wf_ty] in H.
+  apply andb_true_iff in H. destruct H as [H Ha].
+  apply andb_true_iff in H. destruct H as [Hr Hsv]. apply negb_true_iff in Hsv. auto.
+Qed.
+
+Lemma char_fun : forall c r args,
+  ret_rejected r -> Forall (fun p => reads_char (snd p)) args -> reads_char (CFun c r args).
+Proof.
+  intros c r args IHr IHa td cs on ds rest f Hwf Hon Hrest Hf.
+  destruct (wf_fun_inv td c r args Hwf) as [Hwr [Hsv Hwa]].
+  rewrite fun_toks in *. rewrite printed_as_fun.
+  destruct (ptr_base r) eqn:Hpb.
+  - cbn [negb]. rewrite orb_false_r.
+    destruct (fun_head td r c cs on _ f Hpb Hwr Hon Hf) as [g [Hg Hhead]].
+    rewrite Hhead. clear Hhead.
+    destruct (c || (is_nil cs && negb (is_some on))); [reflexivity|].
+    rewrite !app_length in Hg. rewrite brks_len, rev_length in Hg.
+    rewrite suffix_params; try assumption; [|rewrite !app_length, brks_len, rev_length; lia].
+    destruct (map_opt rd_param args) as [args'|]; [|reflexivity].
+    pose proof (rev_length ds) as Hrl.
+    fuel_split (g - 1) (length (rev ds)). rewrite p_suffix_brks.
+    remember (g - 1 - length (rev ds)) as g2 eqn:E. fuel_S g2 g3.
+    rewrite p_suffix_end by exact Hrest.
+    rewrite apply_arrwrap. cbn [apply_dtor]. rewrite apply_ptrwrap. reflexivity.
+  - cbn [negb]. rewrite orb_true_r.
+    apply (IHr td [] [] c cs on _ f Hwr Hon (or_introl Hpb)). exact Hf.
+Qed.
+
+Lemma rej_fun : forall c r args,
+  ret_rejected r -> Forall (fun p => reads_char (snd p)) args -> ret_rejected (CFun c r args).
+Proof.
+  intros c1 r1 args1 IHr IHa td cs1 ds1 c cs on Y f Hwf Hon _ Hf.
+  destruct (wf_fun_inv td c1 r1 args1 Hwf) as [Hwr [Hsv Hwa]].
+  rewrite fun_toks in *.
+  destruct (ptr_base r1) eqn:Hpb.
+  - destruct (fun_head td r1 c1 cs1 None _ f Hpb Hwr eq_refl Hf) as [g [Hg Hhead]].
+    rewrite Hhead. clear Hhead.
+    destruct (c1 || (is_nil cs1 && negb (is_some None))); [reflexivity|].
+    rewrite !app_length in Hg. rewrite brks_len, rev_length in Hg.
+    rewrite suffix_params; try assumption; [|rewrite !app_length, brks_len, rev_length; lia].
+    destruct (map_opt rd_param args1) as [args'|]; [|reflexivity].
+    rewrite p_suffix_brks_then_group; [reflexivity|exact Hon|rewrite rev_length; lia].
+  - apply (IHr td [] [] c1 cs1 None _ f Hwr eq_refl (or_introl Hpb)). exact Hf.
+Qed.
+
+Theorem reads_char_all : forall t, reads_char t /\ ret_rejected t.
+Proof.
+  intros t. induction t as [ws c|c t [IH1 IH2]|t n [IH1 IH2]|c r args [IH1 IH2] IHa] using cty_ind'.
+  - split; [apply char_base|apply rej_base].
+  - split; [now apply char_ptr|now apply rej_ptr].
+  - split; [now apply char_arr|now apply rej_arr].
+  - assert (IHa' : Forall (fun p => reads_char (snd p)) args).
+    { apply Forall_forall. intros p Hp. rewrite Forall_forall in IHa. exact (proj1 (IHa p Hp)). }
+    split; [now apply char_fun|now apply rej_fun].
+Qed.
+
+(* ------------------------------------------------------------------ what the output denotes *)
+
+Lemma denote_td_p_decl : forall td ts,
+  denote_td td ts =
+  match p_decl td (2 * length ts + 2) ts with
+  | Some ((Some n, t), []) => Some (n, t)
+  | _ => None
+  end.
+Proof.
+  intros td ts. unfold denote_td, p_decl.
+  destruct (p_spec td ts) as [[b r]|]; [|reflexivity].
+  destruct (p_dtor td (2 * length ts + 2) r) as [[d [|x r']]|]; try reflexivity.
+  all: destruct (apply_dtor d b) as [[n|] t]; reflexivity.
+Qed.
+
+Theorem decl_reading_td : forall td t n,
+  wf_names_td td t n ->
+  denote_td td (serialize t [SName n]) =
+  match printed_as true [] [] t with Some T => Some (n, T) | None => None end.
+Proof.
+  intros td t n [Hn Hwf]. rewrite denote_td_p_decl.
+  pose proof (proj1 (reads_char_all t) td [] (Some n) [] []
+                    (2 * length (serialize t [SName n]) + 2) Hwf Hn eq_refl) as H.
+  cbn [stack map app param_stack rev brks flat_map is_some] in H.
+  rewrite app_nil_r in H. rewrite H by lia.
+  destruct (printed_as true [] [] t); reflexivity.
+Qed.
+
+Theorem decl_reading : forall t n,
+  wf_names t n ->
+  denote (serialize t [SName n]) =
+  match printed_as true [] [] t with Some T => Some (n, T) | None => None end.
+Proof. intros t n. apply decl_reading_td. Qed.
+
+(* ------------------------------------------------------------------ simple = "is printed as itself" *)
+
+Lemma simple_printed : forall t nm cs ds,
+  simple_go nm (negb (is_nil cs)) ds t = true ->
+  printed_as nm cs ds t = Some (arrays ds (ptrs cs t)).
+Proof.
+  intros t. induction t as [ws c|c t IH|t n IH|c r args IH IHa] using cty_ind';
+    intros nm cs ds Hs; cbn [simple_go] in Hs.
+  - apply N_list_eqb_eq in Hs. cbn [printed_as]. now rewrite <- Hs.
+  - cbn [printed_as]. now apply (IH nm (c :: cs) ds).
+  - apply andb_true_iff in Hs. destruct Hs as [Hst Hs].
+    destruct cs as [|c0 cs]; [|discriminate Hst]. cbn [is_nil negb] in Hs.
+    cbn [printed_as ptrs]. rewrite (IH nm [] (ds ++ [n]) Hs). cbn [ptrs].
+    now rewrite arrays_snoc.
+  - apply andb_true_iff in Hs. destruct Hs as [Hs Hargs].
+    apply andb_true_iff in Hs. destruct Hs as [Hs Hpb].
+    apply andb_true_iff in Hs. destruct Hs as [Hs Hds].
+    apply andb_true_iff in Hs. destruct Hs as [Hc Hne].
+    destruct c; [discriminate Hc|]. destruct ds as [|d0 ds]; [|discriminate Hds].
+    rewrite printed_as_fun. rewrite Hpb. cbn [negb orb]. rewrite orb_false_r.
+    assert (Hbad : is_nil cs && negb nm = false).
+    { destruct cs as [|c0 cs]; [|reflexivity]. cbn [is_nil negb orb andb] in *. now rewrite Hne. }
+    rewrite Hbad.
+    assert (Hm : map_opt rd_param args = Some args).
+    { clear Hbad Hne Hpb. induction IHa as [|p args Hp IHa IHl]; [reflexivity|].
+      cbn [forallb] in Hargs. apply andb_true_iff in Hargs. destruct Hargs as [Hp1 Hl].
+      rewrite map_opt_cons, (IHl Hl). unfold rd_param.
+      rewrite (Hp (is_some (fst p)) [] [] Hp1). cbn [arrays ptrs]. now destruct p. }
+    rewrite Hm. reflexivity.
+Qed.
+
+Lemma plug_snoc_ptr : forall pre c t, plug (pre ++ [FPtr c]) t = plug pre (CPtr c t).
+Proof. induction pre as [|[c0|n0] pre IH]; intros c t; cbn [app plug]; [reflexivity| |]; now rewrite IH. Qed.
+
+Lemma plug_snoc_arr : forall pre n t, plug (pre ++ [FArr n]) t = plug pre (CArr t n).
+Proof. induction pre as [|[c0|n0] pre IH]; intros n t; cbn [app plug]; [reflexivity| |]; now rewrite IH. Qed.
+
+Lemma sp_ptrs_app : forall a b, sp_ptrs (a ++ b) = sp_ptrs a ++ sp_ptrs b.
+Proof. induction a as [|[c|n] a IH]; intros b; cbn [app sp_ptrs]; [reflexivity| |]; now rewrite IH. Qed.
+
+Lemma sp_arrs_app : forall a b, sp_arrs (a ++ b) = sp_arrs a ++ sp_arrs b.
+Proof. induction a as [|[c|n] a IH]; intros b; cbn [app sp_arrs]; [reflexivity| |]; now rewrite IH. Qed.
+
+Lemma spine_plug : forall pre k, spine (plug pre k) = pre ++ spine k.
+Proof. induction pre as [|[c|n] pre IH]; intros k; cbn [plug spine app]; [reflexivity| |]; now rewrite IH. Qed.
+
+Lemma core_plug : forall pre k, core (plug pre k) = core k.
+Proof. induction pre as [|[c|n] pre IH]; intros k; cbn [plug core]; [reflexivity| |]; apply IH. Qed.
+
+Lemma spine_arrays : forall L T, spine (arrays L T) = map FArr L ++ spine T.
+Proof. induction L as [|d L IH]; intros T; cbn [arrays spine map app]; [reflexivity|]. now rewrite IH. Qed.
+
+Lemma spine_ptrs : forall cs T, spine (ptrs cs T) = map FPtr (rev cs) ++ spine T.
+Proof.
+  induction cs as [|c cs IH]; intros T; [reflexivity|].
+  cbn [ptrs rev]. rewrite IH. cbn [spine]. rewrite map_app, <- app_assoc. reflexivity.
+Qed.
+
+Lemma core_arrays : forall L T, core (arrays L T) = core T.
+Proof. induction L as [|d L IH]; intros T; cbn [arrays core]; [reflexivity|]. apply IH. Qed.
+
+Lemma core_ptrs : forall cs T, core (ptrs cs T) = core T.
+Proof. induction cs as [|c cs IH]; intros T; [reflexivity|]. cbn [ptrs]. now rewrite IH. Qed.
+
+Lemma sp_arrs_FArr : forall L, sp_arrs (map FArr L) = L.
+Proof. induction L as [|d L IH]; [reflexivity|]. cbn [map sp_arrs]. now rewrite IH. Qed.
+
+Lemma sp_arrs_FPtr : forall P, sp_arrs (map FPtr P) = [].
+Proof. induction P as [|c P IH]; [reflexivity|]. exact IH. Qed.
+
+Lemma simple_go_arrays : forall L nm ds0 X,
+  simple_go nm false ds0 (arrays L X) = simple_go nm false (ds0 ++ L) X.
+Proof.
+  induction L as [|d L IH]; intros nm ds0 X.
+  - now rewrite app_nil_r.
+  - cbn [arrays simple_go negb andb]. rewrite IH, <- app_assoc. reflexivity.
+Qed.
+
+Lemma simple_go_ptrs : forall cs nm s ds X,
+  simple_go nm s ds (ptrs cs X) = simple_go nm (s || negb (is_nil cs)) ds X.
+Proof.
+  induction cs as [|c cs IH]; intros nm s ds X.
+  - cbn [ptrs is_nil negb]. now rewrite orb_false_r.
+  - cbn [ptrs]. rewrite IH. cbn [simple_go is_nil negb]. now rewrite orb_true_r.
+Qed.
+
+Lemma map_opt_id : forall A (f : A -> option A) l,
+  map_opt f l = Some l -> Forall (fun x => f x = Some x) l.
+Proof.
+  induction l as [|x l IH]; intros H; [constructor|].
+  rewrite map_opt_cons in H.
+  destruct (f x) as [y|] eqn:E; [|discriminate H].
+  destruct (map_opt f l) as [ys|] eqn:El; [|discriminate H].
+  injection H as H1 H2. subst y ys. constructor; [exact E|now apply IH].
+Qed.
+
+(* printed as itself, below any prefix of the spine, means in the class *)
+Lemma printed_simple : forall t nm pre,
+  printed_as nm (rev (sp_ptrs pre)) (sp_arrs pre) t = Some (plug pre t) ->
+  simple_go nm false [] (plug pre t) = true.
+Proof.
+  intros t. induction t as [ws c|c t IH|t n IH|c r args IH IHa] using cty_ind';
+    intros nm pre H.
+  - cbn [printed_as] in H. injection H as H.
+    assert (HA : rev (sp_arrs pre) = sp_arrs pre).
+    { apply (f_equal (fun x => sp_arrs (spine x))) in H.
+      rewrite spine_arrays, spine_ptrs, spine_plug in H. cbn [spine] in H.
+      rewrite !app_nil_r, sp_arrs_app, sp_arrs_FArr, sp_arrs_FPtr, app_nil_r in H. exact H. }
+    rewrite <- H. rewrite simple_go_arrays, simple_go_ptrs. cbn [app simple_go].
+    rewrite HA, HA. apply N_list_eqb_refl.
+  - rewrite <- plug_snoc_ptr. apply IH.
+    rewrite sp_ptrs_app, sp_arrs_app, rev_app_distr. cbn [sp_ptrs sp_arrs rev app].
+    rewrite app_nil_r, plug_snoc_ptr. exact H.
+  - rewrite <- plug_snoc_arr. apply IH.
+    rewrite sp_ptrs_app, sp_arrs_app. cbn [sp_ptrs sp_arrs].
+    rewrite app_nil_r, plug_snoc_arr. exact H.
+  - rewrite printed_as_fun in H.
+    destruct (c || (is_nil (rev (sp_ptrs pre)) && negb nm) || negb (ptr_base r)) eqn:Hbad;
+      [discriminate H|].
+    destruct (map_opt rd_param args) as [args'|] eqn:Hm; [|discriminate H].
+    injection H as H.
+    apply orb_false_iff in Hbad. destruct Hbad as [Hbad Hpb].
+    apply orb_false_iff in Hbad. destruct Hbad as [Hc Hne].
+    apply negb_false_iff in Hpb. subst c.
+    pose proof (f_equal core H) as Hcore.
+    rewrite core_ptrs, core_plug in Hcore. cbn [core] in Hcore.
+    injection Hcore as Hr Ha. subst args'.
+    rewrite <- H. rewrite simple_go_ptrs. cbn [simple_go orb negb andb is_nil].
+    rewrite Hr, Hpb.
+    assert (Hst : negb (is_nil (rev (sp_ptrs pre))) || nm = true).
+    { destruct (is_nil (rev (sp_ptrs pre))); [|reflexivity].
+      cbn [andb negb orb] in *. now apply negb_false_iff in Hne. }
+    rewrite Hst. cbn [andb].
+    apply map_opt_id in Hm.
+    clear H Hr Hst Hne Hpb. induction IHa as [|p args Hp IHa IHl]; [reflexivity|].
+    inversion Hm as [|p0 l0 Hp0 Hl0]. subst p0 l0.
+    cbn [forallb]. rewrite (IHl Hl0), andb_true_r.
+    unfold rd_param in Hp0.
+    destruct (printed_as (is_some (fst p)) [] [] (snd p)) as [T|] eqn:E; [|discriminate Hp0].
+    injection Hp0 as Hp0. destruct p as [on t]. cbn [fst snd] in *. injection Hp0 as Hp0. subst T.
+    exact (Hp (is_some on) [] E).
+Qed.
+
+Theorem simple_iff_printed : forall t,
+  simple t = true <-> printed_as true [] [] t = Some t.
+Proof.
+  intros t. split.
+  - intros H. exact (simple_printed t true [] [] H).
+  - intros H. exact (printed_simple t true [] H).
+Qed.
+
+(* the class is exact *)
+Theorem decl_roundtrip_exact_td : forall td t n,
+  wf_names_td td t n ->
+  (denote_td td (serialize t [SName n]) = Some (n, t) <-> simple t = true).
+Proof.
+  intros td t n Hwf. split.
+  - intros H. rewrite (decl_reading_td td t n Hwf) in H.
+    apply simple_iff_printed.
+    destruct (printed_as true [] [] t) as [T|]; [|discriminate H].
+    now injection H as H; subst T.
+  - intros H. now apply decl_roundtrip_partial_td.
+Qed.
+
+Theorem decl_roundtrip_exact : forall t n,
+  wf_names t n -> (denote (serialize t [SName n]) = Some (n, t) <-> simple t = true).
+Proof. intros t n. apply decl_roundtrip_exact_td. Qed.
